@@ -109,7 +109,7 @@ theorem load_ok {cfg : Config} {L n : Nat} (hcfg : cfg.l1DLineSize = L) (hL : 0 
     · obtain ⟨bytes, u', hg, h1, h2, h3, _, h5⟩ := getFromL1D_hit hL hw hc a0 as hok hres
       simp only [hg, bind, Except.bind]
       exact ⟨bytes, u', mem, _, rfl, h5, h1, h2, h3, Or.inr ⟨by simp, Or.inl rfl⟩⟩
-    · obtain ⟨line, u2, mem2, hf, hp, hi2, hw2, hc2, hres2⟩ := fill_ok hcfg hL hn hw hc a0 h0 hmiss
+    · obtain ⟨line, u2, mem2, hf, hp, hi2, hw2, hc2, hres2, _⟩ := fill_ok hcfg hL hn hw hc a0 h0 hmiss
       obtain ⟨bytes, u3, hg, h1, h2, h3, _, h5⟩ := getFromL1D_hit hL hw2 hc2 a0 as hok hres2
       simp only [getFromL1D_miss a0 as hmiss, hf, hp, hg, bind, Except.bind]
       exact ⟨bytes, u3, mem2, _, rfl, h5, by rw [h1, hi2], h2, h3, Or.inr ⟨by simp, Or.inr rfl⟩⟩
@@ -134,7 +134,7 @@ theorem store_ok {L n : Nat} (hL : 0 < L) {u : Mmu} {ctx : Model.Context} {flat 
     have hres1 : ∃ l ∈ u1.l1d.lines, ∀ q ∈ e.MemoryChanges, l.lo = base L q.1.toInt := by
       obtain ⟨l, hl, hq⟩ := hres'
       exact ⟨l, hperm.mem_iff.mpr hl, hq⟩
-    obtain ⟨u2, hwr, hi2, hw2, hc2⟩ := write_cached_ok hL hw1 hc1 e hst hres1
+    obtain ⟨u2, hwr, hi2, hw2, hc2, _⟩ := write_cached_ok hL hw1 hc1 e hst hres1
     simp only [hd, hwr, bind, Except.bind, if_true]
     exact ⟨u2, ctx.Memory, _, rfl, by rw [hi2, hi1], hw2, hc2, Or.inl rfl⟩
   · have hd := doesExist_miss e p ps hchs hmiss
